@@ -31,6 +31,10 @@ SCENARIOS = [
     ("custom_async,checkpoint", "pause", {}),
     ("custom_async,checkpoint", "suspend", {}),
     ("open_run,close_run,custom", "", {}),
+    # the status returned by a device's set() is the response to the 'set' message (real _set handler)
+    ("set_fallible,custom,checkpoint", "", {}),
+    ("set_fallible,checkpoint", "pause", {"max_requests": 2}),
+    ("set_fallible,checkpoint", "suspend", {"max_requests": 1}),
     ("open_run,close_run,custom,checkpoint", "pause", {"max_requests": 2}),
     ("open_run,close_run,custom", "abort", {"engine_kw": {"call_returns_result": True}}),
     ("open_run,close_run,custom,checkpoint", "pause", {"engine_kw": {"call_returns_result": True}, "max_requests": 1}),
